@@ -543,7 +543,11 @@ type c42Machine struct {
 	crashed   bool                 // an abrupt restart happened: deleted store items may have been resurrected
 
 	// non-trivial markers
-	evictions, limboTrips, abruptMulti int
+	evictions, limboTrips, abruptMulti, tipOnlyRepl, midRepl int
+
+	// feeFocus: submission-dense history profile (TestVerifC42Fees): several txs per account, replacements of
+	// any pooled nonce that are acceptable by price, tips close together, overflow, restarts
+	feeFocus bool
 }
 
 func (m *c42Machine) tracef(format string, a ...any) { m.trace = append(m.trace, fmt.Sprintf(format, a...)) }
@@ -783,12 +787,20 @@ func (m *c42Machine) checkInvariants() {
 		if spent.Gt(st.balance) {
 			m.fail("a%d: pooled txs cost %v > balance %v (%s)", i, spent, st.balance, lists)
 		}
-		// rolling eviction fields of the tail vs recomputation from raw fees
-		key, minFee, minBlob := c42AccountKey(lists[i], m.basefee(), m.blobfee())
-		last := txs[len(txs)-1]
-		if !last.evictionExecTip.Eq(key.tip) || math.Abs(last.evictionExecFeeJumps-minFee) > 1e-9 || math.Abs(last.evictionBlobFeeJumps-minBlob) > 1e-9 {
-			m.fail("a%d: eviction thresholds of the tail (%v, %f, %f) != recomputed (%v, %f, %f)", i, last.evictionExecTip,
-				last.evictionExecFeeJumps, last.evictionBlobFeeJumps, key.tip, minFee, minBlob)
+		// rolling eviction fields of EVERY pooled tx vs the minima recomputed from the raw fees of the
+		// nonce prefix ending at it (white-box). The tail's values are the account's eviction key; the
+		// inner ones become the key as soon as the tail is evicted, included-and-reorged or dropped.
+		for j := range txs {
+			key, minFee, minBlob := c42AccountKey(lists[i][:j+1], m.basefee(), m.blobfee())
+			mt := txs[j]
+			if mt.evictionExecTip == nil || !mt.evictionExecTip.Eq(key.tip) || math.Abs(mt.evictionExecFeeJumps-minFee) > 1e-9 || math.Abs(mt.evictionBlobFeeJumps-minBlob) > 1e-9 {
+				where := "inner tx"
+				if j == len(txs)-1 {
+					where = "tail"
+				}
+				m.fail("a%d: rolling eviction thresholds of the %s at position %d/%d, nonce %d (tip %v, feejumps %f, blobjumps %f) != minima recomputed from the raw fees of nonces %d..%d (tip %v, %f, %f); %s",
+					i, where, j, len(txs), mt.nonce, mt.evictionExecTip, mt.evictionExecFeeJumps, mt.evictionBlobFeeJumps, txs[0].nonce, mt.nonce, key.tip, minFee, minBlob, lists)
+			}
 		}
 	}
 	if len(p.lookup.txIndex) != total {
@@ -1044,9 +1056,30 @@ func (m *c42Machine) genTx() *c42Tx {
 	lists := m.lists()
 	next := head42Nonce(m, ai, lists)
 	var nonce uint64
-	switch rapid.SampledFrom([]string{"next", "next", "next", "next", "replace", "replace", "gap", "gap2", "low"}).Draw(rt, "nonceKind") {
+	kinds := []string{"next", "next", "next", "next", "next", "replace", "replace", "replaceMid", "replaceMid", "replaceMid", "gap", "gap2", "low"}
+	if m.feeFocus {
+		kinds = []string{"next", "next", "next", "next", "next", "replaceMid", "replaceMid", "replaceMid", "replaceMid", "replace", "gap"}
+	}
+	switch rapid.SampledFrom(kinds).Draw(rt, "nonceKind") {
 	case "next":
 		nonce = next
+	case "replaceMid":
+		// a NON-TAIL nonce of an account holding >= 2 pooled txs (the account is redrawn among those):
+		// the rolling eviction minima of all followers have to be refreshed by the pool
+		var cand []int
+		for i := range lists {
+			if len(lists[i]) >= 2 {
+				cand = append(cand, i)
+			}
+		}
+		if len(cand) > 0 {
+			ai = rapid.SampledFrom(cand).Draw(rt, "midAcct")
+			st = m.chain.head.st[ai]
+			next = head42Nonce(m, ai, lists)
+			nonce = lists[ai][rapid.IntRange(0, len(lists[ai])-2).Draw(rt, "midIdx")].nonce
+			break
+		}
+		fallthrough
 	case "replace":
 		if n := len(lists[ai]); n > 0 {
 			nonce = lists[ai][rapid.IntRange(0, n-1).Draw(rt, "replaceIdx")].nonce
@@ -1065,6 +1098,13 @@ func (m *c42Machine) genTx() *c42Tx {
 	tip := rapid.SampledFrom(c42Tips).Draw(rt, "tip")
 	feeCap := rapid.SampledFrom(c42FeeCaps).Draw(rt, "feeCap")
 	blobCap := rapid.SampledFrom(c42BlobCaps).Draw(rt, "blobCap")
+	if ct := rapid.IntRange(0, 2).Draw(rt, "closeTips"); ct == 0 || (m.feeFocus && ct == 1) {
+		// generous fee caps (same priority bucket for most fee levels), tips close together and
+		// different per tx: the worst TIP alone decides the order between and inside accounts
+		tip = uint64(rapid.IntRange(1, 12).Draw(rt, "closeTip"))
+		feeCap = rapid.SampledFrom([]uint64{500, 2000, 2000}).Draw(rt, "genFeeCap")
+		blobCap = rapid.SampledFrom([]uint64{100, 1000, 1000}).Draw(rt, "genBlobCap")
+	}
 	// replacement variants around the bump boundary of the last tx generated for this nonce
 	var oldTx *types.Transaction
 	for _, e := range lists[ai] {
@@ -1075,7 +1115,17 @@ func (m *c42Machine) genTx() *c42Tx {
 	if prev := m.byNonce[ai][nonce]; oldTx == nil && len(prev) > 0 {
 		oldTx = prev[len(prev)-1].full
 	}
-	if oldTx != nil && rapid.IntRange(0, 9).Draw(rt, "bumpVariant") < 8 {
+	bumpVariant := -1
+	if oldTx != nil {
+		bumpVariant = rapid.IntRange(0, 9).Draw(rt, "bumpVariant")
+	}
+	around := 4
+	if m.feeFocus {
+		around = 2
+	}
+	switch {
+	case bumpVariant >= 0 && bumpVariant < around:
+		// each cap independently on / just around its bump threshold (mostly rejected)
 		old := oldTx
 		variant := func(o *big.Int, label string) uint64 {
 			thr := new(big.Int).Mul(o, big.NewInt(int64(100+m.bump)))
@@ -1095,6 +1145,29 @@ func (m *c42Machine) genTx() *c42Tx {
 		tip = variant(old.GasTipCap(), "tipVariant")
 		feeCap = variant(old.GasFeeCap(), "feeCapVariant")
 		blobCap = variant(old.BlobGasFeeCap(), "blobCapVariant")
+	case bumpVariant >= around && bumpVariant < 9:
+		// all three caps at or above the bump threshold, each by its own margin (acceptable as far as
+		// the price rule goes): which of the account's rolling minima move, and how far, varies freely
+		up := func(o *big.Int, label string) uint64 {
+			thr := new(big.Int).Mul(o, big.NewInt(int64(100+m.bump)))
+			thr.Div(thr, big.NewInt(100))
+			v := thr.Uint64()
+			if v <= o.Uint64() {
+				v = o.Uint64() + 1
+			}
+			switch rapid.SampledFrom([]string{"thr", "thr", "thr+1", "x2", "x5+3"}).Draw(rt, label) {
+			case "thr+1":
+				return v + 1
+			case "x2":
+				return 2 * v
+			case "x5+3":
+				return 5*v + 3
+			}
+			return v
+		}
+		tip = up(oldTx.GasTipCap(), "tipUp")
+		feeCap = up(oldTx.GasFeeCap(), "feeCapUp")
+		blobCap = up(oldTx.BlobGasFeeCap(), "blobCapUp")
 	}
 	if tip > feeCap && rapid.IntRange(0, 9).Draw(rt, "tipAboveCap") > 0 {
 		tip = feeCap
@@ -1105,7 +1178,7 @@ func (m *c42Machine) genTx() *c42Tx {
 		blobIdx = append(blobIdx, rapid.IntRange(0, c42NBlobs-1).Draw(rt, "blob"))
 	}
 	gas := uint64(21000)
-	if rapid.IntRange(0, 19).Draw(rt, "gasOdd") == 0 {
+	if !m.feeFocus && rapid.IntRange(0, 19).Draw(rt, "gasOdd") == 0 {
 		gas = rapid.SampledFrom([]uint64{20999, 30_000_001}).Draw(rt, "gas")
 	}
 	// value around the cumulative affordability boundary
@@ -1122,7 +1195,11 @@ func (m *c42Machine) genTx() *c42Tx {
 	if need := new(uint256.Int).Add(spent, fees); st.balance.Gt(need) {
 		room.Sub(st.balance, need)
 	}
-	switch rapid.SampledFrom([]string{"small", "small", "small", "small", "zero", "exact", "exact+1", "half"}).Draw(rt, "valueKind") {
+	valueKinds := []string{"small", "small", "small", "small", "zero", "exact", "exact+1", "half"}
+	if m.feeFocus {
+		valueKinds = []string{"small", "small", "small", "small", "small", "small", "zero", "half", "exact"}
+	}
+	switch rapid.SampledFrom(valueKinds).Draw(rt, "valueKind") {
 	case "zero":
 		value = new(uint256.Int)
 	case "exact":
@@ -1264,6 +1341,28 @@ func (m *c42Machine) doAdd(x *c42Tx, viaAdd bool) {
 		if uint256.MustFromBig(x.full.GasFeeCap()).Eq(thr(old.feeCap)) || uint256.MustFromBig(x.full.GasTipCap()).Eq(thr(old.tip)) ||
 			uint256.MustFromBig(x.full.BlobGasFeeCap()).Eq(thr(old.blobFeeCap)) {
 			m.c.Class("replace:at-boundary")
+		}
+		// shape of the replacement with respect to the account's rolling eviction minima
+		for j, e := range pre[x.acct] {
+			if e.nonce != x.nonce || j == len(pre[x.acct])-1 {
+				continue
+			}
+			m.c.Class("replace:non-tail")
+			m.midRepl++
+			repl := append([]c42Entry{}, pre[x.acct]...)
+			repl[j] = c42EntryOf(x, e.storageSize)
+			_, f0, b0 := c42AccountKey(pre[x.acct][:j+2], m.basefee(), m.blobfee())
+			_, f1, b1 := c42AccountKey(repl[:j+2], m.basefee(), m.blobfee())
+			k0, _, _ := c42AccountKey(pre[x.acct], m.basefee(), m.blobfee())
+			k1, _, _ := c42AccountKey(repl, m.basefee(), m.blobfee())
+			if !k0.tip.Eq(k1.tip) {
+				m.c.Class("replace:non-tail-moves-account-worst-tip")
+				if f0 == f1 && b0 == b1 {
+					// the replaced tx was the bottleneck of the followers for the tip only
+					m.c.Class("replace:non-tail-moves-worst-tip-only")
+					m.tipOnlyRepl++
+				}
+			}
 		}
 	}
 	if m.pool.stored > m.datacap {
@@ -1487,7 +1586,11 @@ func (m *c42Machine) nextState(base [c42NAcct]c42AcctState, included [c42NAcct]i
 		if !touched[i] {
 			continue
 		}
-		balKind := rapid.SampledFrom([]string{"keep", "keep", "keep", "big", "big", "sum", "sum-1", "first", "zero"}).Draw(m.rt, label+"Balance")
+		balKinds := []string{"keep", "keep", "keep", "big", "big", "sum", "sum-1", "first", "zero"}
+		if m.feeFocus {
+			balKinds = []string{"keep", "keep", "keep", "keep", "big", "big", "big", "sum", "first"}
+		}
+		balKind := rapid.SampledFrom(balKinds).Draw(m.rt, label+"Balance")
 		switch balKind {
 		case "big":
 			st[i].balance = c42BigBalance.Clone()
@@ -1953,7 +2056,7 @@ func c42ScratchBase() string {
 
 var c42ScratchOnce sync.Once
 
-func c42Run(t *testing.T, rt *rapid.T, st *vs.S) {
+func c42Run(t *testing.T, rt *rapid.T, st *vs.S, feeFocus bool) {
 	c := st.Case()
 	root, err := os.MkdirTemp(c42ScratchBase(), fmt.Sprintf("verif-c42-%d-", os.Getpid()))
 	if err != nil {
@@ -1962,12 +2065,16 @@ func c42Run(t *testing.T, rt *rapid.T, st *vs.S) {
 	defer os.RemoveAll(root)
 
 	m := &c42Machine{rt: rt, t: t, st: st, c: c, root: root, known: map[common.Hash]*c42Tx{}, limboSet: map[common.Hash]bool{},
-		everIncl: map[common.Hash]map[uint64]bool{}, tornOK: map[common.Hash]bool{}}
+		everIncl: map[common.Hash]map[uint64]bool{}, tornOK: map[common.Hash]bool{}, feeFocus: feeFocus}
 	for i := range m.byNonce {
 		m.byNonce[i] = map[uint64][]*c42Tx{}
 	}
 	slot1 := uint64(4096 + 2*(blobSize+int(txBlobOverhead))) // shelf of a one-blob tx (cells are twice the blob)
-	m.datacap = slot1 * uint64(rapid.SampledFrom([]int{3, 4, 4, 6, 8}).Draw(rt, "datacapSlots"))
+	slots := []int{3, 4, 4, 6, 8}
+	if feeFocus {
+		slots = []int{4, 6, 8, 8, 12}
+	}
+	m.datacap = slot1 * uint64(rapid.SampledFrom(slots).Draw(rt, "datacapSlots"))
 	m.bump = rapid.SampledFrom([]uint64{100, 100, 10}).Draw(rt, "priceBump")
 	m.gasTip = 1
 
@@ -1986,10 +2093,18 @@ func c42Run(t *testing.T, rt *rapid.T, st *vs.S) {
 	defer func() { m.pool.Close() }()
 	m.tracef("datacap=%d (%d one-blob slots) bump=%d genesis %s", m.datacap, m.datacap/slot1, m.bump, c42StateString(gst))
 
-	steps := rapid.IntRange(4, 25).Draw(rt, "steps")
+	actions := []string{"add", "add", "add", "add", "add", "add", "add", "add", "add", "add", "newHead", "newHead", "newHead",
+		"reorg", "inclReorg", "inclReorg", "setGasTip", "clean", "abruptBoundary", "abruptMidOp", "abruptMidOp"}
+	steps := 0
+	if feeFocus {
+		actions = []string{"add", "add", "add", "add", "add", "add", "add", "add", "add", "add", "add", "add", "add", "add", "add", "add",
+			"newHead", "reorg", "setGasTip", "clean", "clean", "abruptBoundary"}
+		steps = rapid.IntRange(12, 40).Draw(rt, "steps")
+	} else {
+		steps = rapid.IntRange(4, 25).Draw(rt, "steps")
+	}
 	for s := 0; s < steps; s++ {
-		switch rapid.SampledFrom([]string{"add", "add", "add", "add", "add", "add", "add", "add", "add", "add", "newHead", "newHead", "newHead",
-			"reorg", "inclReorg", "inclReorg", "setGasTip", "clean", "abruptBoundary", "abruptMidOp", "abruptMidOp"}).Draw(rt, "action") {
+		switch rapid.SampledFrom(actions).Draw(rt, "action") {
 		case "add":
 			m.actAdd()
 		case "newHead":
@@ -2018,7 +2133,13 @@ func c42Run(t *testing.T, rt *rapid.T, st *vs.S) {
 		c.Class("reserver-breach")
 		st.Note("reserver protocol breach observed (not asserted): %v", m.res.breaches[0])
 	}
-	nt := m.evictions > 0 || m.limboTrips > 0 || m.abruptMulti > 0
+	nt := m.evictions > 0 || m.limboTrips > 0 || m.abruptMulti > 0 || m.midRepl > 0
+	if m.midRepl > 0 {
+		c.Class("history:non-tail-replacement")
+	}
+	if m.tipOnlyRepl > 0 {
+		c.Class("history:non-tail-replacement-moving-worst-tip-only")
+	}
 	if m.evictions > 0 {
 		c.Class("history:eviction")
 	}
@@ -2034,7 +2155,7 @@ func c42Run(t *testing.T, rt *rapid.T, st *vs.S) {
 		if len(tr) > 10 {
 			tr = tr[:10]
 		}
-		return map[string]any{"steps": steps, "evictions": m.evictions, "limbo_round_trips": m.limboTrips, "abrupt_restarts_2acc": m.abruptMulti, "trace_head": tr}
+		return map[string]any{"steps": steps, "evictions": m.evictions, "limbo_round_trips": m.limboTrips, "abrupt_restarts_2acc": m.abruptMulti, "non_tail_replacements": m.midRepl, "trace_head": tr}
 	})
 }
 
@@ -2162,5 +2283,17 @@ func TestVerifC42Open(t *testing.T) {
 func TestVerifC42Machine(t *testing.T) {
 	c42Material(t)
 	st := vs.New("C42", t)
-	vs.Check(t, 1, func(rt *rapid.T) { c42Run(t, rt, st) })
+	vs.Check(t, 1, func(rt *rapid.T) { c42Run(t, rt, st, false) })
+}
+
+// TestVerifC42Fees runs the same machine (same oracle and reference model) with a submission-dense
+// profile: larger capacity so that accounts hold several txs, frequent replacements of ANY pooled nonce
+// (mostly non-tail) that meet the price bump with independent margins per cap, generous fee caps with
+// tips close together across accounts, then overflow and restarts. Exercises the refresh of the
+// per-account rolling eviction minima and of the eviction heap after a change in the middle of a
+// nonce sequence.
+func TestVerifC42Fees(t *testing.T) {
+	c42Material(t)
+	st := vs.New("C42", t)
+	vs.Check(t, 0.5, func(rt *rapid.T) { c42Run(t, rt, st, true) })
 }
